@@ -350,9 +350,15 @@ class _stream_init:
     def aliases(e): return {"self.encoder": e.encoder, "self.options": e.options}
 
     def lists(e):
-        supplied = Not(is_none(e.options.flow))
-        return [dict(label="flow-supplied", when=supplied, set={}, alias={"self.flow": opt_val(e.options.flow)}),
-                dict(label="flow-inferred", when=Not(supplied), set={})]
+        o = e.options
+        supplied = Not(is_none(o.flow))
+        cases = [dict(label="flow-supplied", when=supplied, set={}, alias={"self.flow": opt_val(o.flow)})]
+        # a call site continues with a new flow of each class the inference can choose (the body is checked by `ensures`)
+        for name, cond in expected_flow_class(e.self.cls.name, o.logical_type, o.params.delimited).items():
+            if cond is not False:
+                cases.append(dict(label=f"flow-inferred-{name}", when=And(Not(supplied), cond), set={},
+                                  new={"self.flow": OBJ(f"{FL}:{name}")}))
+        return cases
 
     def _final_logical(e):
         o = e.options
@@ -391,3 +397,68 @@ class _stream_init:
 def _default_logical(stream_cls: str, delimited: Any) -> Any:
     from .streams import DEFAULT_FLOW
     return z3.If(delimited, CLASS_LOGICAL[DEFAULT_FLOW[stream_cls]], 0)
+
+
+# --------------------------------------------------------------------- TermEncoder.__init__, guess_options, guess_stream
+from .encode import SE, TENC  # noqa: E402
+from .spec_tables import empty_table, table_eq  # noqa: E402
+from .terms import GTerm as _GT  # noqa: E402,F401
+
+
+def tables_match_header(S: Any) -> Any:
+    """C03/C13: the sizes announced in the options row are the sizes the writer's tables really have"""
+    lp, E = S.options.lookup_preset, S.encoder
+    return And(E.names.lookup.max_size == lp.max_names, E.prefixes.lookup.max_size == lp.max_prefixes,
+               E.datatypes.lookup.max_size == lp.max_datatypes)
+
+
+@contract(f"{SE}:TermEncoder.__init__", serves=["C03", "C13", "C12", "C05"])
+class _term_encoder_init:
+    """a new term encoder has three empty tables of exactly the preset's sizes, coupled with the empty spec tables, and
+    shares them with nobody"""
+    params = {"self": NEWOBJ(GENC), "lookup_preset": OBJ(PRESET)}
+    variants = [{"self": NEWOBJ(GENC)}, {"self": NEWOBJ("pyjelly.integrations.rdflib.serialize:RDFLibTermEncoder")}]
+    modifies = ["self"]
+
+    def requires(e):
+        lp = e.lookup_preset
+        return And(lp.max_names >= 1, lp.max_names < 2 ** 32, lp.max_prefixes >= 0, lp.max_prefixes < 2 ** 32,
+                   lp.max_datatypes >= 0, lp.max_datatypes < 2 ** 32)
+
+    def aliases(e): return {"self.lookup_preset": e.lookup_preset}
+
+    def ensures(e):
+        E, lp = e.self, e.lookup_preset
+        new = lambda v: v._ref.id not in e._old_heap  # noqa: E731
+        return {"tables-well-formed-and-coupled": wf_te(E),
+                "sizes-are-the-preset's": And(E.names.lookup.max_size == lp.max_names, E.prefixes.lookup.max_size == lp.max_prefixes,
+                                               E.datatypes.lookup.max_size == lp.max_datatypes),
+                "spec-tables-empty": And(table_eq(E.names.T, empty_table(lp.max_names)), table_eq(E.prefixes.T, empty_table(lp.max_prefixes)),
+                                         table_eq(E.datatypes.T, empty_table(lp.max_datatypes))),
+                "tables-are-per-encoder": new(E.names) and new(E.prefixes) and new(E.datatypes)}
+
+
+@contract(f"{GSER}:guess_stream", serves=["C03", "C13", "C06", "C15", "C12"])
+class _guess_stream:
+    """the stream built for an entry point uses a new encoder whose tables have exactly the sizes its options row will
+    announce; QuadStream unless the sink holds triples or a graphs logical type was asked for"""
+    params = {"options": OBJ(SOPTS), "sink": OBJ(f"{SINK}@open")}
+    result = Sort("anyobj")
+    inline_at_calls = True
+
+    def requires(e):
+        o, lp = e.options, e.options.lookup_preset
+        return And(known_logical(o.logical_type), is_none(o.flow), lp.max_names >= 1, lp.max_names < 2 ** 32,
+                   lp.max_prefixes >= 0, lp.max_prefixes < 2 ** 32, lp.max_datatypes >= 0, lp.max_datatypes < 2 ** 32)
+
+    def raises(e): return {("?", "JellyAssertionError"): True}
+
+    def ensures(e):
+        S = e.result
+        return {"header-sizes-are-the-encoder's-table-sizes": tables_match_header(S),
+                "tables-well-formed": wf_te(S.encoder),
+                "options-handed-on": S.options == e.options,
+                "not-yet-enrolled": Not(S.enrolled)}
+
+inline(f"{GS}:GenericStatementSink.is_triples_sink")     # bool(store) and len(store[0]) == 3
+inline(f"{GSER}:GenericSinkTermEncoder.__init__") if False else None
